@@ -2,8 +2,8 @@
 # Parts 1 (core reader) and 3 (selected hand-written helpers) + the totality search live here.
 # The lead appends part 2 (generated table layouts): props "C01/LayoutProps.v", the Layout coq_targets,
 # and a second bin — the lists below are plain lists for that purpose.
-PROPS = ["C01/Props.v", "C01/LayoutProps.v"]
-COQ_TARGETS = ["C01/Core.vo", "C01/Tables.vo", "C01/Proofs.vo", "C01/Examples.vo", "C01/LayoutProofs.vo", "C01/LayoutExamples.vo"]
+PROPS = ["C01/Props.v", "C01/PropsH.v", "C01/LayoutProps.v"]
+COQ_TARGETS = ["C01/Core.vo", "C01/Tables.vo", "C01/Proofs.vo", "C01/ModelH.vo", "C01/ProofsH.vo", "C01/ProofsH2.vo", "C01/Examples.vo", "C01/LayoutProofs.vo", "C01/LayoutExamples.vo"]
 BINS = ["c01", "c01l"]
 
 SPEC = dict(
